@@ -125,6 +125,45 @@ def q2_structured(rng):
     return ops
 
 
+def qcb_random(rng, n):
+    """callback consumers (op 6 k: completion callback re-pops k times from inside the callback) mixed with plain ops"""
+    v = Vals()
+    ops = []
+    for _ in range(n):
+        r = rng.random()
+        if r < 0.42:
+            ops.append([1, v()])
+        elif r < 0.62:
+            ops.append([6, rng.choice([0, 1, 2, 3, 5])])
+        elif r < 0.72:
+            ops.append([2])
+        elif r < 0.84:
+            ops.append([3, rng.randint(1, 9)])
+        elif r < 0.97:
+            ops.append([4])
+        else:
+            ops.append([5])
+    return ops
+
+
+def qcb_structured(rng):
+    v = Vals()
+    P = lambda: [1, v()]
+    k = rng.randint(1, 4)
+    style = rng.randrange(5)
+    if style == 0:    # the seeded-demo shape: item queued, callback consumer starts, pushes are handed to it one by one
+        ops = [P(), [6, k + 3]] + [P() for _ in range(k)] + [[3, 7], P(), [4], [5]]
+    elif style == 1:  # consumer waits first; every push re-enters pop() from the callback
+        ops = [[6, k]] + [P() for _ in range(k + 2)] + [[2], [4]]
+    elif style == 2:  # several items queued: the chain drains them inside one op, then parks
+        ops = [P() for _ in range(k + 1)] + [[6, k + 2], [4], P(), P()]
+    elif style == 3:  # two callback consumers and a plain pop compete: service stays in arrival order
+        ops = [[6, 2], [2], [6, 1]] + [P() for _ in range(6)] + [[3, 4], [3, 5]]
+    else:             # unblock_pop re-enters too; budget 0 consumer stops
+        ops = [[6, 0], [6, 2], [3, 1], [3, 2], P(), P(), [3, 3], [5], [6, 1]]
+    return ops
+
+
 def gen_c09_seq(seed, tier):
     rng = random.Random(seed * 104729 + 9)
     n = 60 if tier == "quick" else 700
@@ -140,6 +179,9 @@ def gen_c09_seq(seed, tier):
             cases.append(Case(eng, "%s_r%d" % (eng, i), q_random(rng, L, void, bias[0], bias[1]))); i += 1
         for _ in range(max(4, n // 8)):
             cases.append(Case(eng, "%s_m%d" % (eng, i), q_malformed(rng, void))); i += 1
+    for _ in range(n):
+        cases.append(Case("qcb", "qcb_s%d" % i, qcb_structured(rng))); i += 1
+        cases.append(Case("qcb", "qcb_r%d" % i, qcb_random(rng, rng.choice([5, 9, 15, 24])))); i += 1
     m = 40 if tier == "quick" else 400
     for _ in range(m):
         cases.append(Case("q2", "q2_s%d" % i, q2_structured(rng))); i += 1
